@@ -13,7 +13,10 @@ import (
 // ---------------------------------------------------------------------------
 // spec expressions
 
-type QVar struct{ Name, Type string }
+type QVar struct {
+	Name, Type string
+	Pkg        string
+}
 
 type SExpr struct {
 	Op    string // id int str float bool nil sel idx call un bin forall exists old slice
@@ -209,7 +212,7 @@ func (p *sparser) quant() (*SExpr, error) {
 		for !(p.isOp("::") || p.isOp(",") || p.peek().k == "eof") {
 			ty += p.next().s
 		}
-		qs = append(qs, QVar{n.s, ty})
+		qs = append(qs, QVar{Name: n.s, Type: ty})
 		if p.isOp(",") {
 			p.next()
 			continue
@@ -376,6 +379,7 @@ type Contract struct {
 	Requires []*Clause
 	Ensures  []*Clause
 	Assumes  []*Clause // unchecked assumptions on entry (listed)
+	Records  []*Clause // ghost records: Text = ghost var name, E = value (post-state), applied at call sites
 	Modifies []string  // raw items: "T.f", "x.f", "*" , "ghost name"
 	Loops    map[int]*LoopSpec
 	Params   []string // for extern/functype/interface: parameter names
@@ -416,12 +420,13 @@ type ContractSet struct {
 	Types   map[string]*TypeSpec // pkgpath.Type
 	Ghosts  map[string]QVar      // ghost global name -> type
 	GhostFields map[string]QVar // ghost field name -> type
+	Recorded map[string]bool // ghost vars assigned by records clauses (definitional)
 	Errors  []string
 	RawScan []string // every trusted/assume/pure/bounded line, for evidence
 }
 
 func newContractSet() *ContractSet {
-	return &ContractSet{Funcs: map[string]*Contract{}, Specs: map[string]*SpecFunc{}, Types: map[string]*TypeSpec{}, Ghosts: map[string]QVar{}, GhostFields: map[string]QVar{}}
+	return &ContractSet{Funcs: map[string]*Contract{}, Specs: map[string]*SpecFunc{}, Types: map[string]*TypeSpec{}, Ghosts: map[string]QVar{}, GhostFields: map[string]QVar{}, Recorded: map[string]bool{}}
 }
 
 // parseContractFile reads one zz_contracts_verif.go file.
@@ -535,10 +540,10 @@ func (cs *ContractSet) parseContractFile(pkgPath, file string) {
 			w2, r2 := splitWord(rest)
 			if w2 == "var" {
 				n, ty := splitWord(r2)
-				cs.Ghosts[n] = QVar{n, strings.TrimSpace(ty)}
+				cs.Ghosts[n] = QVar{Name: n, Type: strings.TrimSpace(ty), Pkg: pkgPath}
 			} else if w2 == "field" {
 				n, ty := splitWord(r2)
-				cs.GhostFields[n] = QVar{n, strings.TrimSpace(ty)}
+				cs.GhostFields[n] = QVar{Name: n, Type: strings.TrimSpace(ty), Pkg: pkgPath}
 			}
 		case "repinv":
 			if curType == nil {
@@ -589,6 +594,24 @@ func (cs *ContractSet) parseContractFile(pkgPath, file string) {
 				cur.Assumes = append(cur.Assumes, &Clause{Text: rest, E: e, N: len(cur.Assumes) + 1})
 				cs.RawScan = append(cs.RawScan, "assume in "+cur.Key+": "+rest)
 			}
+		case "records":
+			if cur == nil {
+				errf(ln, "records outside func block")
+				continue
+			}
+			i := strings.Index(rest, "=")
+			if i < 0 {
+				errf(ln, "records name = expr")
+				continue
+			}
+			e, err := parseSpec(rest[i+1:])
+			if err != nil {
+				errf(ln, "%v", err)
+				continue
+			}
+			name := strings.TrimSpace(rest[:i])
+			cur.Records = append(cur.Records, &Clause{Text: name, E: e, N: len(cur.Records) + 1})
+			cs.Recorded[name] = true
 		case "modifies":
 			if cur != nil {
 				for _, m := range strings.Split(rest, ",") {
@@ -736,7 +759,7 @@ func parseSpecFunc(s string) (*SpecFunc, error) {
 			continue
 		}
 		n, ty := splitWord(p)
-		sf.Params = append(sf.Params, QVar{n, strings.ReplaceAll(ty, " ", "")})
+		sf.Params = append(sf.Params, QVar{Name: n, Type: strings.ReplaceAll(ty, " ", "")})
 	}
 	rest := strings.TrimSpace(s[j+1:])
 	if k := strings.Index(rest, "="); k >= 0 && !strings.HasPrefix(rest[k:], "==") {
